@@ -485,6 +485,9 @@ class Randomizer(RandIF):
         for rs in active_randsets:
             for f in rs.all_fields():
                 f.dispose()
+            # The diagnostics solver goes away too: also release the nodes
+            # that constraints and array expressions cached from it
+            RandSetDisposeVisitor().dispose(rs)
             
         return ret            
     
